@@ -265,12 +265,14 @@ func TestReloadRace(t *testing.T) {
 		}(w)
 	}
 	n := int64(1)
-	for time.Now().Before(deadline) {
+	enough := func() bool { mu.Lock(); defer mu.Unlock(); return len(rows) >= 400 }
+	hard := time.Now().Add(25 * time.Second) // on a loaded machine few probes fall outside every reload: keep going until there are enough
+	for time.Now().Before(deadline) || (!enough() && time.Now().Before(hard)) {
 		started.Add(1)
 		reg.SetUsers(userMap(false, sets[int(n)%len(sets)]))
 		n++
 		completed.Add(1)
-		time.Sleep(200 * time.Microsecond)
+		time.Sleep(300 * time.Microsecond)
 	}
 	close(stop)
 	wg.Wait()
